@@ -105,6 +105,12 @@ CLAIMS["C13"] = ("symbolic execution (symx) of the typed accessors, tree/chain w
          "geometry incl. 0 and the ASCII/LZW/CCITT filters on corrupt payloads raise only the library family; every single fault (28 sites x 12 kinds) and every truncation of an 8-object seed document keeps "
          "extract_text inside the family, without hang or recursion exhaustion. Each counterexample is replayed through extract_text on a generated PDF.",
          "4.C13")
+CLAIMS["C12"] = ("symbolic execution (symx) of the operations that touch process-wide or cached state (get_encoding, use_cmap, interning, init_resources, get_font, resolve_all/decipher_all, CMapDB caches), plus small end-to-end call histories driven by symbolic choices",
+         "PARTIAL by design: arbitrary histories and interleavings of extract_* calls are whole-program runs; the claim is reduced to frame conditions - each operation leaves the shared tables / the document's own "
+         "dictionaries unchanged and returns what it returns in isolation, for every bounded history (Differences arrays, 3-call get_font histories over fonts sharing a descendant, 3-call CMapDB histories, "
+         "2 earlier interns) - and checked end to end on every 3-call history over two documents that share object numbers and font names, with caching on/off, page-at-a-time vs together, and interleaved "
+         "page iterators. The inventory of module/class-level mutable containers is recomputed from the AST on every run.",
+         "4.C12")
 NA = {}
 def main():
     props = [json.loads(l) for l in open(os.path.join(ROOT, "properties.jsonl"))]
